@@ -858,6 +858,21 @@ def counted_chunks(run, m, F):
     return n
 
 
+def direct_form(I, st, ev, utf8, mode):
+    """The result is what string_stream::to_string(utf8, mode) computes, spelled out: from_latin_1(raw, size) when utf8 is false,
+    from_utf8(raw, size, mode) when it is true, over the stream's raw_buffer() and size()."""
+    name, args = ev[2], ev[3]
+    ptrs = [a for a in args if isinstance(a, PtrV) and a.obj is not None and str(a.obj).startswith('raw')]
+    sizes = [a for a in args if isinstance(a, IntV) and any(str(x).startswith('sssize') for x in a.lin.atoms())]
+    if len(ptrs) != 1 or len(sizes) != 1 or st.is_eq0(ptrs[0].off) is not True:
+        return False
+    if not utf8:
+        return name.endswith('from_latin_1')
+    if not name.endswith('from_utf8'):
+        return False
+    return any(isinstance(a, IntV) and a.bits == 32 and st.is_eq0(I.as_u(st, a) - mode) is True for a in args)
+
+
 def writer_result(run, m, F, E):
     """R17.7: what ST::format / format_latin_1 return is to_string(utf8, validation) of the bytes the writer accumulated.  The string
     writer is taken through two-step histories - constructor, then append_char(ch, count) with ch >= 0x80, or append(data, 1) with
@@ -883,7 +898,7 @@ def writer_result(run, m, F, E):
             st.ev('ss-to_string', inst, list(args))
             return [(st, None)]
         if d.startswith('ST::string::from_validated(') or re.match(r'^ST::string::string\(', d) or d.startswith('ST::string::from_utf8(') or d.startswith('ST::string::from_latin_1('):
-            st.ev('other-result', inst, d.split('(')[0])
+            st.ev('other-result', inst, d.split('(')[0], list(args))
             return [(st, None)]
         if d.startswith('ST::format_writer::format_writer(') or d.startswith('ST::string_stream::string_stream('):
             return [(st, None)]
@@ -945,6 +960,8 @@ def writer_result(run, m, F, E):
                                 isinstance(a[3], IntV) and o.st.is_eq0(I.as_u(o.st, a[3]) - modes[val]) is True
                             if not okargs:
                                 probs.append('%s hands string_stream::to_string other arguments than it was given' % label)
+                        elif oth and not ev and len(oth) == 1 and direct_form(I, o.st, oth[0], utf8, modes[val]):
+                            pass        # to_string of the stream written out: from_latin_1 / from_utf8 of (raw_buffer(), size()) with the mode
                         elif oth and not ev:
                             probs.append('after the constructor and %s the writer answers %s through %s instead of to_string of its stream: the bytes are '
                                          'returned as they are - %s (a shortcut guarded by a field that %s leaves as the constructor set it)' %
